@@ -301,6 +301,9 @@ func rulesC01(p *Prog, r *Report) {
 		p.staleReads(r, "R01.3", e.Fn, "Vault", []*ssa.Function{getVault}, writerMay, setVault, uses)
 	}
 
+	// R01.5 settlement side: totals reduced outside the vault handlers ------------------------
+	settlementTotals(p, r, "R01.5", true)
+
 	// R01.4 ------------------------------------------------------------------------
 	unitContextRule(p, r, "R01.4", func(u WorkUnit) bool { return u.Closure != nil && touches.Fn(u.Closure) }, 2)
 }
@@ -514,6 +517,9 @@ func rulesC02(p *Prog, r *Report) {
 		}
 	}
 
+	// R02.4 settlement burns: the minted total is reduced by exactly what is burnt
+	settlementTotals(p, r, "R02.4", false)
+
 	// R02.3 who mints ------------------------------------------------------------------
 	r.Rule("R02.3", "vault-module debt is minted only inside the vault mint handlers", 4)
 	handlerSet := map[*ssa.Function]bool{}
@@ -535,6 +541,122 @@ func rulesC02(p *Prog, r *Report) {
 				r.OK("R02.3", construct, "mint site is inside a vault message handler covered by R02.1/R02.2", p.instrPos(c))
 			} else {
 				r.Fail("R02.3", construct, "debt is minted from the vault module outside the vault mint handlers (interest, fees and settlements must be paid from existing supply)", p.instrPos(c), nil)
+			}
+		}
+	}
+}
+
+// settlementTotals: outside the vault message handlers (auction settlement, emergency shutdown)
+// the published minted total is reduced by exactly an amount burnt in the same function (or by
+// the recorded principal of a vault that the function deletes), and the collateral total by a
+// recorded collateral amount, never by a message value.
+func settlementTotals(p *Prog, r *Report, rule string, withCollateral bool) {
+	r.Rule(rule, "auction settlement / shutdown: totals reduced by exactly what is burnt / by recorded amounts", 4)
+	updColl := p.MustFunc("x/vault/keeper.Keeper.UpdateCollateralLockedAmountLockerMapping")
+	updMint := p.MustFunc("x/vault/keeper.Keeper.UpdateTokenMintedAmountLockerMapping")
+	handlers := map[*ssa.Function]bool{}
+	for _, e := range vaultHandlers(p) {
+		handlers[e.Fn] = true
+	}
+	var fns []*ssa.Function
+	for _, fn := range p.Funcs {
+		if !p.isAuxFn(fn) && !handlers[fn] && moduleOf(fn) != "vault" {
+			fns = append(fns, fn)
+		}
+	}
+	sort.Slice(fns, func(i, j int) bool { return fname(fns[i]) < fname(fns[j]) })
+	recTypes := map[string]bool{"Vault": true, "LockedVault": true, "DutchAuction": true, "Auction": true, "StableMintVault": true}
+	for _, fn := range fns {
+		var burnt []string
+		deletesVault := false
+		for _, c := range calls(fn) {
+			if be := bankEffect(c); be != nil && be.Op == "Burn" {
+				burnt = append(burnt, p.amountKeys(be.Coins)...)
+			}
+			if p.callIs(c, "DeleteVault", "DeleteStableMintVault") {
+				deletesVault = true
+			}
+		}
+		n := 0
+		for _, c := range calls(fn) {
+			isMint := p.callIsFn(c, updMint)
+			isColl := p.callIsFn(c, updColl)
+			if !isMint && !(isColl && withCollateral) {
+				continue
+			}
+			args := callArgs(c)
+			if len(args) < 5 {
+				continue
+			}
+			dir, isC := constBool(args[4])
+			if !isC || dir {
+				continue
+			}
+			n++
+			r.Instance(rule)
+			r.FuncsSeen[fname(fn)] = true
+			x := args[3]
+			if isMint {
+				construct := fmt.Sprintf("%s minted total -= #%d", fname(fn), n)
+				alts := altKeys(p, x)
+				okBurn := allAltsIn(alts, burnt)
+				okRecord := deletesVault && p.fromRecordFieldsLoose(x, map[string]bool{"Vault": true, "StableMintVault": true}, map[string]bool{"AmountOut": true})
+				// wrapper: the amount is a parameter of this function; its callers must pass the burnt coin
+				okParam := false
+				for _, o := range p.DeepOrigins(x) {
+					if pr, isP := o.Val.(*ssa.Parameter); isP && o.Kind == "param" && pr.Parent() == fn {
+						okParam = true
+						idx := paramIndex(pr)
+						for _, cs := range p.CallSitesOf(fn) {
+							cargs := cs.Common().Args
+							if idx >= len(cargs) {
+								okParam = false
+								continue
+							}
+							var cb []string
+							for _, c2 := range calls(cs.Parent()) {
+								if be := bankEffect(c2); be != nil && be.Op == "Burn" {
+									cb = append(cb, p.amountKeys(be.Coins)...)
+								}
+							}
+							if !intersects(p.amountKeys(cargs[idx]), cb) {
+								okParam = false
+							}
+						}
+					}
+				}
+				// emergency shutdown registers the vault's debt for redemption instead of burning it
+				registers := false
+				for _, c2 := range calls(fn) {
+					if p.callIs(c2, "SetAssetToAmount") {
+						registers = true
+					}
+				}
+				fromVaultRec := p.fromRecordFieldsLoose(x, map[string]bool{"Vault": true, "StableMintVault": true}, map[string]bool{"AmountOut": true})
+				switch {
+				case okBurn || okRecord || okParam:
+					r.OK(rule, construct, "reduced by an amount burnt here (or the recorded principal of the deleted vault)", p.instrPos(c))
+				case registers && fromVaultRec && !withCollateral:
+					r.OK(rule, construct, "the recorded principal is registered for emergency redemption (esm AssetToAmount) instead of burnt", p.instrPos(c))
+				case registers && fromVaultRec && withCollateral:
+					r.Fail(rule, construct, "emergency shutdown moves the position's collateral out of vault custody and takes it off the published totals, but the position record is neither deleted nor zeroed: the record keeps claiming collateral that vault custody no longer holds", p.instrPos(c), nil)
+				default:
+					r.Fail(rule, construct, fmt.Sprintf("the published minted total is reduced by %v, which is not an amount burnt in this settlement %v: recorded principal and supply diverge", keysOf(p, x), uniq(burnt)), p.instrPos(c), nil)
+				}
+			} else {
+				construct := fmt.Sprintf("%s collateral total -= #%d", fname(fn), n)
+				fromRec := p.fromRecordFieldsLoose(x, recTypes, map[string]bool{"CollateralToken": true, "AmountIn": true, "OutflowTokenInitAmount": true, "CollateralToBeAuctioned": true})
+				fromParam := false
+				for _, o := range p.DeepOrigins(x) {
+					if pr, isP := o.Val.(*ssa.Parameter); isP && o.Kind == "param" && pr.Parent() == fn && msgParam(fn) != pr {
+						fromParam = true
+					}
+				}
+				if fromRec || fromParam {
+					r.OK(rule, construct, "reduced by a recorded collateral amount", p.instrPos(c))
+				} else {
+					r.Fail(rule, construct, "the published collateral total is reduced by a value that does not come from the recorded collateral of the seized position", p.instrPos(c), nil)
+				}
 			}
 		}
 	}
